@@ -22,6 +22,11 @@ Definition position_of (pos : node) (new : list bid) (p : node) : Prop :=
     find_node_backwards_compute g pos fin (blocked_of g new) = Some (true, path) /\
     p = where_of pos path fin.
 
+(* FindNodeBackwards returned (did not run out of its internal fuel) for every origin node of [new] *)
+Definition Defined (pos : node) (new : list bid) : Prop :=
+  forall fin, In fin (finish_nodes g new) ->
+    exists r, find_node_backwards_compute g pos fin (blocked_of g new) = Some r.
+
 (* s' is a state FindSolution(s) may recurse into *)
 Definition Succ (s s' : state) : Prop :=
   exists removed new,
@@ -53,17 +58,19 @@ Lemma collect_positions_spec : forall pos blocked finishes pc acc positions pc',
   pc_exact g pc ->
   collect_positions g pc pos blocked finishes acc = Some (positions, pc') ->
   pc_exact g pc' /\
-  forall p, In p positions <->
+  (forall p, In p positions <->
             In p acc \/ exists fin path, In fin finishes /\
-              find_node_backwards_compute g pos fin blocked = Some (true, path) /\ p = where_of pos path fin.
+              find_node_backwards_compute g pos fin blocked = Some (true, path) /\ p = where_of pos path fin) /\
+  (forall fin, In fin finishes -> exists r, find_node_backwards_compute g pos fin blocked = Some r).
 Proof.
   intros pos blocked. induction finishes as [|fin rest IH]; intros pc acc positions pc' Hpc H.
-  - simpl in H. inversion H; subst. split; [exact Hpc|]. intros p. split; [auto|].
+  - simpl in H. inversion H; subst. split; [exact Hpc|]. split; [|intros fin []]. intros p. split; [auto|].
     intros [Hp|[f [pa [[] _]]]]. exact Hp.
   - simpl in H. destruct (find_node_backwards g pc pos fin blocked) as [[[ex path] pc1]|] eqn:Ef; [|discriminate].
     destruct (find_node_backwards_spec g _ _ _ _ _ _ Hpc Ef) as [Hpc1 Hc].
     destruct ex.
-    + destruct (IH _ _ _ _ Hpc1 H) as [Hpc' Hin]. split; [exact Hpc'|].
+    + destruct (IH _ _ _ _ Hpc1 H) as [Hpc' [Hin Hdef]]. split; [exact Hpc'|].
+      split; [|intros f [Hf|Hf]; [subst f; eexists; exact Hc | apply Hdef; exact Hf]].
       intros p. rewrite Hin, In_sins. fold (where_of pos path fin). split.
       * intros [[Hp|Hp]|[f [pa [Hf [Hcf Hw]]]]].
         -- right. exists fin, path. split; [left; reflexivity | split; assumption].
@@ -73,7 +80,8 @@ Proof.
         -- left. right. exact Hp.
         -- subst f. rewrite Hc in Hcf. inversion Hcf; subst. left. left. reflexivity.
         -- right. exists f, pa. split; [exact Hf | split; assumption].
-    + destruct (IH _ _ _ _ Hpc1 H) as [Hpc' Hin]. split; [exact Hpc'|].
+    + destruct (IH _ _ _ _ Hpc1 H) as [Hpc' [Hin Hdef]]. split; [exact Hpc'|].
+      split; [|intros f [Hf|Hf]; [subst f; eexists; exact Hc | apply Hdef; exact Hf]].
       intros p. rewrite Hin. split.
       * intros [Hp|[f [pa [Hf [Hcf Hw]]]]]; [left; exact Hp|].
         right. exists f, pa. split; [right; exact Hf | split; assumption].
@@ -140,12 +148,13 @@ Lemma try_results_spec : forall results st st' r,
   (r = true -> (exists removed, In (removed, []) results /\ goals_conflict g removed = false) \/
                exists s', SuccL s' /\ QT s') /\
   (r = false -> (forall removed, In (removed, []) results -> goals_conflict g removed = true) /\
-                forall removed new p, In (removed, new) results -> goals_conflict g removed = false ->
-                  new <> [] -> position_of pos new p -> seen_mem (p, new) seen = true \/ QF (p, new)).
+                forall removed new, In (removed, new) results -> goals_conflict g removed = false ->
+                  new <> [] -> Defined pos new /\
+                  forall p, position_of pos new p -> seen_mem (p, new) seen = true \/ QF (p, new)).
 Proof.
   induction results as [|[removed new] rest IH]; intros st st' r Hsub HP H.
   - simpl in H. inversion H; subst. split; [exact HP|]. split; [discriminate|].
-    intros _. split; [intros removed [] | intros removed new p []].
+    intros _. split; [intros removed [] | intros removed new []].
   - simpl in H.
     assert (Hrest : forall x, In x rest -> In x allres) by (intros x Hx; apply Hsub; right; exact Hx).
     destruct (goals_conflict g removed) eqn:Ec.
@@ -153,14 +162,14 @@ Proof.
       * intros Hr. destruct (B Hr) as [[rm [Hi Hcf]]|Hs]; [left; exists rm; split; [right|]; assumption | right; exact Hs].
       * intros Hr. destruct (C Hr) as [C1 C2]. split.
         -- intros rm [Hi|Hi]; [inversion Hi; subst; exact Ec | apply C1; exact Hi].
-        -- intros rm nw p [Hi|Hi] Hcf; [inversion Hi; subst; congruence | eapply C2; eassumption].
+        -- intros rm nw [Hi|Hi] Hcf; [inversion Hi; subst; congruence | eapply C2; eassumption].
     + destruct new as [|b0 nt].
       * inversion H; subst. split; [exact HP|]. split; [|discriminate].
         intros _. left. exists removed. split; [left; reflexivity | exact Ec].
       * destruct (collect_positions g (s_paths st) pos (blocked_of g (b0 :: nt)) (finish_nodes g (b0 :: nt)) [])
           as [[positions pc']|] eqn:Ecp; [|discriminate].
         destruct HP as [HP1 HP2].
-        destruct (collect_positions_spec _ _ _ _ _ _ _ HP1 Ecp) as [Hpc' Hposs].
+        destruct (collect_positions_spec _ _ _ _ _ _ _ HP1 Ecp) as [Hpc' [Hposs Hdef]].
         assert (HPmid : P (mkS (s_memo st) pc')) by (split; assumption).
         assert (Hin : In (removed, b0 :: nt) allres) by (apply Hsub; left; reflexivity).
         assert (Hne : b0 :: nt <> []) by discriminate.
@@ -179,8 +188,8 @@ Proof.
            ++ intros Hr. destruct (B' Hr) as [[rm [Hi Hcf]]|Hs]; [left; exists rm; split; [right|]; assumption | right; exact Hs].
            ++ intros Hr. destruct (C' Hr) as [C1 C2]. split.
               ** intros rm [Hi|Hi]; [inversion Hi | apply C1; exact Hi].
-              ** intros rm nw p [Hi|Hi] Hcf Hnw Hp; [|eapply C2; eassumption].
-                 inversion Hi; subst. apply B; [reflexivity|].
+              ** intros rm nw [Hi|Hi] Hcf Hnw; [|eapply C2; eassumption].
+                 inversion Hi; subst. split; [exact Hdef|]. intros p Hp. apply B; [reflexivity|].
                  apply Hposs. right. destruct Hp as [fin [path [Hf [Hc2 Hw]]]].
                  exists fin, path. repeat split; assumption.
 Qed.
@@ -198,7 +207,9 @@ Theorem find_solution_spec : forall rec (PM : memo -> Prop) (QT QF : state -> Pr
   find_solution rec fuel g st s seen = Some (st', r) ->
   P PM st' /\
   (r = true -> Leaf s \/ exists s', Succ s s' /\ QT s') /\
-  (r = false -> ~ Leaf s /\ forall s', Succ s s' -> seen_mem s' seen = true \/ QF s').
+  (r = false -> ~ Leaf s /\ (forall s', Succ s s' -> seen_mem s' seen = true \/ QF s') /\
+                forall removed new, resolves_at g (fst s) (goals_of s) (removed, new) ->
+                  goals_conflict g removed = false -> new <> [] -> Defined (fst s) new).
 Proof.
   intros rec PM QT QF seen fuel st [pos sgoals] st' r Hss HP Hrec H.
   assert (Hfs : find_solution rec fuel g st (pos, sgoals) seen =
@@ -223,8 +234,11 @@ Proof.
     + right. exists s'. split; [apply HSL; exact Hs | exact HQ].
   - intros Hr. destruct (C Hr) as [C1 C2]. split.
     + intros [rm [Hra Hc]]. apply Hres in Hra. apply C1 in Hra. congruence.
-    + intros [p nw] [removed [new [Hra [Hc [Hne [Hp Hs]]]]]]. simpl in *. subst nw.
-      eapply C2; eauto. apply Hres. exact Hra.
+    + split.
+      * intros [p nw] [removed [new [Hra [Hc [Hne [Hp Hs]]]]]]. simpl in *. subst nw.
+        apply Hres in Hra. destruct (C2 _ _ Hra Hc Hne) as [_ C3]. apply C3. exact Hp.
+      * intros removed new Hra Hc Hne. simpl in Hra. apply Hres in Hra.
+        destruct (C2 _ _ Hra Hc Hne) as [C3 _]. exact C3.
 Qed.
 
 (* successor positions are backward reachable; a successor's goals do not originate at s *)
